@@ -109,6 +109,29 @@ func VerifInodeAndSizeLimits() {
 	}
 }
 
+// VerifInodeLimitRoots: the inode limit bounds the scan as a whole, also when it has several roots.
+func VerifInodeLimitRoots() {
+	fs1, _ := tree()
+	fs2, _ := tree()
+	maxInodes := verifrt.IntRange("maxInodes", 0, 1<<40)
+	ex := fake.NewExtractor("x", func(string) bool { return true })
+	col := &collector{}
+	_, _, err := filesystem.Run(context.Background(), &filesystem.Config{
+		Extractors: []filesystem.Extractor{ex},
+		ScanRoots:  []*scalibrfs.ScanRoot{{FS: fs1}, {FS: fs2}},
+		Stats:      col,
+		MaxInodes:  maxInodes,
+	})
+	limited := maxInodes > 0
+	verifrt.Assert(verifrt.Implies(limited, col.inodes <= maxInodes), "no more inodes processed than the inode limit")
+	verifrt.Assert(verifrt.Iff(err != nil, verifrt.And(limited, maxInodes < 2*nInodes)), "scan fails exactly when the tree holds more inodes than the limit")
+	if err == nil {
+		verifrt.Reach("completed")
+	} else {
+		verifrt.Reach("inode-limit-hit")
+	}
+}
+
 // VerifCancelFilesystem: once the context is cancelled no extraction starts on a further file,
 // and the scan reports failure whenever work remained.
 func VerifCancelFilesystem() {
